@@ -14,6 +14,7 @@ package diam
 //@   pure
 //@   ensures [C01 C02] be24: len(b) == 3 ==> r == be24(b, 0)
 //@   ensures range: r < 1<<24
+//@   replay be24: len(ARG0) != 3 || r0 == (uint32(ARG0[0])<<16|uint32(ARG0[1])<<8|uint32(ARG0[2]))
 //@ end
 //@
 //@ func uint32to24(n) (r)
@@ -21,6 +22,7 @@ package diam
 //@   modifies
 //@   ensures shape: len(r) == 3 && fresh(r)
 //@   ensures [C01 C02] be24: be24(r, 0) == n & 0xffffff
+//@   replay be24: len(r0) == 3 && (uint32(r0[0])<<16|uint32(r0[1])<<8|uint32(r0[2])) == ARG0&0xffffff
 //@ end
 //@
 //@ # ======================= header.go =======================================
@@ -39,6 +41,9 @@ package diam
 //@   ensures short: len(data) < 20 ==> err != nil
 //@   ensures total: len(data) >= 20 ==> err == nil
 //@   ensures [C01 C02] rfc_layout: err == nil ==> p != nil && fresh(p) && hdr_wire(p, data)
+//@   replay rfc_layout: r1 != nil || (ARG0[0] == r0.Version && (uint32(ARG0[1])<<16|uint32(ARG0[2])<<8|uint32(ARG0[3])) == r0.MessageLength && ARG0[4] == r0.CommandFlags && (uint32(ARG0[5])<<16|uint32(ARG0[6])<<8|uint32(ARG0[7])) == r0.CommandCode && (uint32(ARG0[8])<<24|uint32(ARG0[9])<<16|uint32(ARG0[10])<<8|uint32(ARG0[11])) == r0.ApplicationID && (uint32(ARG0[12])<<24|uint32(ARG0[13])<<16|uint32(ARG0[14])<<8|uint32(ARG0[15])) == r0.HopByHopID && (uint32(ARG0[16])<<24|uint32(ARG0[17])<<16|uint32(ARG0[18])<<8|uint32(ARG0[19])) == r0.EndToEndID)
+//@   replay total: len(ARG0) < 20 || r1 == nil
+//@   replay short: len(ARG0) >= 20 || r1 != nil
 //@ end
 //@
 //@ func (*Header).SerializeTo(h, b)
@@ -47,6 +52,7 @@ package diam
 //@   modifies b[0:20]
 //@   ensures [C01 C02] rfc_layout: b[0] == h.Version && be24(b, 1) == h.MessageLength & 0xffffff && b[4] == h.CommandFlags &&
 //@           be24(b, 5) == h.CommandCode & 0xffffff && be32(b, 8) == h.ApplicationID && be32(b, 12) == h.HopByHopID && be32(b, 16) == h.EndToEndID
+//@   replay rfc_layout: ARG1[0] == RECV.Version && (uint32(ARG1[1])<<16|uint32(ARG1[2])<<8|uint32(ARG1[3])) == RECV.MessageLength&0xffffff && ARG1[4] == RECV.CommandFlags && (uint32(ARG1[5])<<16|uint32(ARG1[6])<<8|uint32(ARG1[7])) == RECV.CommandCode&0xffffff && (uint32(ARG1[8])<<24|uint32(ARG1[9])<<16|uint32(ARG1[10])<<8|uint32(ARG1[11])) == RECV.ApplicationID && (uint32(ARG1[12])<<24|uint32(ARG1[13])<<16|uint32(ARG1[14])<<8|uint32(ARG1[15])) == RECV.HopByHopID && (uint32(ARG1[16])<<24|uint32(ARG1[17])<<16|uint32(ARG1[18])<<8|uint32(ARG1[19])) == RECV.EndToEndID
 //@ end
 //@
 //@ func (*Header).Serialize(h) (b)
@@ -55,6 +61,7 @@ package diam
 //@   modifies
 //@   ensures [C01 C02] rfc_layout: len(b) == 20 && fresh(b) && b[0] == h.Version && be24(b, 1) == h.MessageLength & 0xffffff && b[4] == h.CommandFlags &&
 //@           be24(b, 5) == h.CommandCode & 0xffffff && be32(b, 8) == h.ApplicationID && be32(b, 12) == h.HopByHopID && be32(b, 16) == h.EndToEndID
+//@   replay rfc_layout: len(r0) == 20 && r0[0] == RECV.Version && (uint32(r0[1])<<16|uint32(r0[2])<<8|uint32(r0[3])) == RECV.MessageLength&0xffffff && r0[4] == RECV.CommandFlags && (uint32(r0[5])<<16|uint32(r0[6])<<8|uint32(r0[7])) == RECV.CommandCode&0xffffff && (uint32(r0[8])<<24|uint32(r0[9])<<16|uint32(r0[10])<<8|uint32(r0[11])) == RECV.ApplicationID && (uint32(r0[12])<<24|uint32(r0[13])<<16|uint32(r0[14])<<8|uint32(r0[15])) == RECV.HopByHopID && (uint32(r0[16])<<24|uint32(r0[17])<<16|uint32(r0[18])<<8|uint32(r0[19])) == RECV.EndToEndID
 //@ end
 //@
 //@ # ======================= avp.go ==========================================
